@@ -389,6 +389,7 @@ func (mr *memRepo) blobCreate(locked bool, opts ...BlobOpt) (BlobCreator, string
 		if ok {
 			// the caller reports this as a successful upload, restart the GC grace period of the blob
 			b.m.mod = time.Now()
+			mr.timeMod = b.m.mod
 			return nil, "", types.ErrBlobExists
 		}
 	}
